@@ -36,9 +36,11 @@ VARIABLES l,        \* next trace line
           prefixes, \* prefix id -> set of keys
           cmax,     \* highest compaction revision accepted so far
           expiring, \* keys that are Event records (may be expired wholesale)
+          chg,      \* time (ms) of the newest change of every key
+          ttl,      \* TTL of Event records in ms (0 = not in this trace)
           viol
 
-vars == <<l, idx, ver, hv, floor, cm, base, pend, maxRet, seen, maxRev, evlog, ws, rds, prefixes, cmax, expiring, viol>>
+vars == <<l, idx, ver, hv, floor, cm, base, pend, maxRet, seen, maxRev, evlog, ws, rds, prefixes, cmax, expiring, chg, ttl, viol>>
 
 E == Trace[l]
 Is(e) == l <= Len(Trace) /\ E.e = e
@@ -48,7 +50,7 @@ V(cond, name) == IF cond \/ (\E v \in viol : v[1] = name) THEN {} ELSE {<<name, 
 
 Empty == /\ idx = [k \in KS |-> NoIdx] /\ ver = [k \in KS |-> {}] /\ hv = [k \in KS |-> {}]
          /\ floor = 0 /\ cm = 0 /\ base = 0 /\ pend = {} /\ maxRet = 0 /\ seen = {} /\ maxRev = 0
-         /\ evlog = {} /\ ws = {} /\ rds = {} /\ prefixes = << >> /\ cmax = 0 /\ expiring = {}
+         /\ evlog = {} /\ ws = {} /\ rds = {} /\ prefixes = << >> /\ cmax = 0 /\ expiring = {} /\ chg = [k \in KS |-> 0] /\ ttl = 0
 
 TInit == l = 1 /\ Empty /\ viol = {}
 
@@ -108,7 +110,7 @@ TReset ==
     /\ Is("Reset") /\ Adv
     /\ idx' = [k \in KS |-> NoIdx] /\ ver' = [k \in KS |-> {}] /\ hv' = [k \in KS |-> {}]
     /\ floor' = 0 /\ cm' = 0 /\ base' = 0 /\ pend' = {} /\ maxRet' = 0 /\ seen' = {} /\ maxRev' = 0
-    /\ evlog' = {} /\ ws' = {} /\ rds' = {} /\ prefixes' = << >> /\ cmax' = 0 /\ expiring' = {}
+    /\ evlog' = {} /\ ws' = {} /\ rds' = {} /\ prefixes' = << >> /\ cmax' = 0 /\ expiring' = {} /\ chg' = [k \in KS |-> 0] /\ ttl' = 0
     /\ UNCHANGED viol
 
 StoreOf(recs) == ApplyAll([k \in KS |-> NoIdx], [k \in KS |-> {}], recs)
@@ -120,6 +122,7 @@ TInitEv ==
     /\ base' = E.base /\ cm' = E.base /\ maxRev' = E.base
     /\ prefixes' = [i \in 1..Len(E.prefixes) |-> {E.prefixes[i][j] : j \in 1..Len(E.prefixes[i])}]
     /\ expiring' = {E.expiring[i] : i \in 1..Len(E.expiring)}
+    /\ chg' = [k \in KS |-> 0] /\ ttl' = IF "ttl_ms" \in DOMAIN E THEN E.ttl_ms ELSE 0
     /\ floor' = 0 /\ pend' = {} /\ maxRet' = 0 /\ seen' = {} /\ evlog' = {} /\ ws' = {} /\ rds' = {} /\ cmax' = 0
     /\ UNCHANGED viol
 
@@ -130,8 +133,8 @@ TInvoke ==
                  floorRev |-> maxRet,
                  m |-> IF IsWrite(E.op) /\ IsLive(Latest(ver[E.k])) THEN Latest(ver[E.k]).rev ELSE 0,
                  diff |-> IF IsWrite(E.op) THEN ~Matches(E.op, E.exp, 0, ver[E.k]) ELSE FALSE,
-                 rev |-> 0, unk |-> FALSE, okc |-> FALSE, at |-> l, cm0 |-> cm, fl0 |-> floor]}
-    /\ UNCHANGED <<idx, ver, hv, floor, cm, base, maxRet, seen, maxRev, evlog, ws, rds, prefixes, cmax, expiring, viol>>
+                 rev |-> 0, unk |-> FALSE, okc |-> FALSE, at |-> l, cm0 |-> cm, fl0 |-> floor, dirty |-> FALSE]}
+    /\ UNCHANGED <<idx, ver, hv, floor, cm, base, maxRet, seen, maxRev, evlog, ws, rds, prefixes, cmax, expiring, chg, ttl, viol>>
 
 \* the version records (r > 0) a commit wants to put
 VerPuts(ops) == {i \in 1..Len(ops) : ops[i].kk = "obj" /\ ops[i].r > 0 /\ ops[i].o = "put" /\ ops[i].k \in KS}
@@ -178,6 +181,8 @@ TCommit ==
                                   !.okc = @ \/ (applied /\ res = "ok"),
                                   !.diff = @ \/ (IsWrite(x.op) /\ ~Matches(x.op, x.exp, x.m, st[2][x.k]))]
                    ELSE IF IsWrite(x.op) THEN [x EXCEPT !.diff = @ \/ ~Matches(x.op, x.exp, x.m, st[2][x.k])]
+                   \* a read in flight while a commit lands on a key it looks at
+                   ELSE IF applied /\ (\E i \in vp : x.op # "get" \/ ops[i].k = x.k) THEN [x EXCEPT !.dirty = TRUE]
                    ELSE x : x \in pend}
        /\ maxRev' = LET rs == {ops[i].r : i \in vp} \cup {maxRev} IN MaxS(rs)
        /\ evlog' = evlog \cup
@@ -188,7 +193,8 @@ TCommit ==
               val |-> IF AV(i) = TOMB THEN Unstar(Latest({x \in ver[ops[i].k] : x.val # TOMB}).val) ELSE ops[i].v[4],
               kvrev |-> IF AV(i) = TOMB THEN Latest({x \in ver[ops[i].k] : x.val # TOMB}).rev ELSE ops[i].r]
              : i \in {j \in vp : applied /\ res = "ok"}}
-    /\ UNCHANGED <<cm, base, maxRet, seen, ws, rds, prefixes, cmax, expiring>>
+       /\ chg' = [k \in KS |-> IF applied /\ (\E i \in vp : ops[i].k = k) THEN E.t ELSE chg[k]]
+    /\ UNCHANGED <<cm, base, maxRet, seen, ws, rds, prefixes, cmax, expiring, ttl>>
 
 TNotify ==
     /\ Is("Notify") /\ Adv
@@ -200,13 +206,13 @@ TNotify ==
        /\ seen' = IF r > 0 THEN seen \cup {r} ELSE seen
        /\ maxRev' = IF r > maxRev THEN r ELSE maxRev
        /\ pend' = {IF x.p = p /\ x.rev = 0 /\ IsWrite(x.op) THEN [x EXCEPT !.rev = r] ELSE x : x \in pend}
-    /\ UNCHANGED <<idx, ver, hv, floor, cm, base, maxRet, evlog, ws, rds, prefixes, cmax, expiring>>
+    /\ UNCHANGED <<idx, ver, hv, floor, cm, base, maxRet, evlog, ws, rds, prefixes, cmax, expiring, chg, ttl>>
 
 TCommitted ==
     /\ Is("Committed") /\ Adv
     /\ cm' = E.a
     /\ viol' = viol \cup V(E.a > cm, "CommittedMonotone") \cup V(E.a \in seen, "CommittedWasReported")
-    /\ UNCHANGED <<idx, ver, hv, floor, base, pend, maxRet, seen, maxRev, evlog, ws, rds, prefixes, cmax, expiring>>
+    /\ UNCHANGED <<idx, ver, hv, floor, base, pend, maxRet, seen, maxRev, evlog, ws, rds, prefixes, cmax, expiring, chg, ttl>>
 
 TReturn ==
     /\ Is("Return") /\ Adv
@@ -224,7 +230,7 @@ TReturn ==
             \cup (IF succ /\ o.op = "delete" THEN V(E.kvrev > 0 /\ E.kvrev < o.rev, "DeleteReturnsPrev") ELSE {})
        /\ maxRet' = IF o.rev > maxRet THEN o.rev ELSE maxRet
        /\ pend' = pend \ {o}
-    /\ UNCHANGED <<idx, ver, hv, floor, cm, base, seen, maxRev, evlog, ws, rds, prefixes, cmax, expiring>>
+    /\ UNCHANGED <<idx, ver, hv, floor, cm, base, seen, maxRev, evlog, ws, rds, prefixes, cmax, expiring, chg, ttl>>
 
 \* ---- watch events
 WOf(w) == CHOOSE x \in ws : x.w = w
@@ -235,12 +241,12 @@ TWatchInvoke ==
     /\ ws' = {x \in ws : x.w # E.w} \cup
              {[w |-> E.w, prefix |-> E.prefix, start |-> E.start, ok |-> TRUE, returned |-> FALSE,
                dl |-> << >>, last |-> 0, closed |-> FALSE]}
-    /\ UNCHANGED <<idx, ver, hv, floor, cm, base, pend, maxRet, seen, maxRev, evlog, rds, prefixes, cmax, expiring, viol>>
+    /\ UNCHANGED <<idx, ver, hv, floor, cm, base, pend, maxRet, seen, maxRev, evlog, rds, prefixes, cmax, expiring, chg, ttl, viol>>
 
 TWatchReturn ==
     /\ Is("WatchReturn") /\ Adv
     /\ ws' = {IF x.w = E.w THEN [x EXCEPT !.ok = E.ok, !.returned = TRUE] ELSE x : x \in ws}
-    /\ UNCHANGED <<idx, ver, hv, floor, cm, base, pend, maxRet, seen, maxRev, evlog, rds, prefixes, cmax, expiring, viol>>
+    /\ UNCHANGED <<idx, ver, hv, floor, cm, base, pend, maxRet, seen, maxRev, evlog, rds, prefixes, cmax, expiring, chg, ttl, viol>>
 
 \* events arrive as [type, key, rev, val, kvrev]
 EvRec(t) == [type |-> t[1], key |-> t[2], rev |-> t[3], val |-> t[4], kvrev |-> t[5]]
@@ -295,12 +301,12 @@ TRecv ==
        /\ viol' = viol \cup RecvAll(w, evs, w.last) \cup V(~w.closed, "NothingAfterClose")
                        \cup ListWatchChecks(w, dl2)
        /\ ws' = (ws \ {w}) \cup {[w EXCEPT !.dl = dl2, !.last = IF evs = << >> THEN @ ELSE evs[Len(evs)][3]]}
-    /\ UNCHANGED <<idx, ver, hv, floor, cm, base, pend, maxRet, seen, maxRev, evlog, rds, prefixes, cmax, expiring>>
+    /\ UNCHANGED <<idx, ver, hv, floor, cm, base, pend, maxRet, seen, maxRev, evlog, rds, prefixes, cmax, expiring, chg, ttl>>
 
 TClosed ==
     /\ Is("Closed") /\ Adv
     /\ ws' = {IF x.w = E.w THEN [x EXCEPT !.closed = TRUE] ELSE x : x \in ws}
-    /\ UNCHANGED <<idx, ver, hv, floor, cm, base, pend, maxRet, seen, maxRev, evlog, rds, prefixes, cmax, expiring, viol>>
+    /\ UNCHANGED <<idx, ver, hv, floor, cm, base, pend, maxRet, seen, maxRev, evlog, rds, prefixes, cmax, expiring, chg, ttl, viol>>
 
 \* ---- reads (point, range, count, streamed range)
 \* RInvoke: [p, op, k, lo, hi, rev, limit]; RReturn: [p, hdr, kvs (seq of [k, rev, val]), more, count, err, brevs, terms]
@@ -309,8 +315,8 @@ TRInvoke ==
     /\ pend' = {x \in pend : x.p # E.p} \cup
                {[p |-> E.p, i |-> 0, op |-> E.op, k |-> E.k, exp |-> 0, v |-> "-", floorRev |-> 0, m |-> 0, diff |-> FALSE,
                  rev |-> E.rev, unk |-> FALSE, okc |-> FALSE, at |-> l, cm0 |-> cm, fl0 |-> floor,
-                 lo |-> E.lo, hi |-> E.hi, limit |-> E.limit, wr0 |-> maxRev, pfx |-> E.pfx]}
-    /\ UNCHANGED <<idx, ver, hv, floor, cm, base, maxRet, seen, maxRev, evlog, ws, rds, prefixes, cmax, expiring, viol>>
+                 lo |-> E.lo, hi |-> E.hi, limit |-> E.limit, wr0 |-> maxRev, pfx |-> E.pfx, dirty |-> FALSE]}
+    /\ UNCHANGED <<idx, ver, hv, floor, cm, base, maxRet, seen, maxRev, evlog, ws, rds, prefixes, cmax, expiring, chg, ttl, viol>>
 
 KvTuples(kvs) == [i \in 1..Len(kvs) |-> <<kvs[i].k, kvs[i].rev, Unstar(kvs[i].val)>>]
 KvSet(kvs) == {kvs[i] : i \in 1..Len(kvs)}
@@ -320,7 +326,7 @@ TouchesStar(R, lo, hi) == \E k \in KS : lo <= k /\ k < hi /\ NewestLE(hv[k], R).
 ReadChecks(o, e) ==
     LET R == IF o.rev = 0 THEN e.hdr ELSE o.rev
         ok == e.err = ""
-        quiet == o.wr0 = maxRev       \* no write became visible while the read was in flight
+        quiet == ~o.dirty             \* no commit landed on a key of this read while it was in flight
     IN
     CASE o.op = "get" ->
             (IF ok /\ (o.rev = 0 \/ (o.rev <= o.cm0 /\ o.rev >= floor)) /\ (o.rev > 0 \/ quiet)
@@ -351,7 +357,7 @@ ReadChecks(o, e) ==
                        \cup V(\A i \in 1..Len(e.brevs) : e.brevs[i] = R, "StreamBatchRevision")
                   ELSE {})
       [] o.op = "count" ->
-            (IF ok /\ e.hdr >= floor /\ quiet
+            (IF ok /\ e.hdr >= floor
              THEN V(e.count = Len(RangeRef(hv, KS, e.hdr, o.lo, o.hi, 0).kvs),
                     IF TouchesStar(e.hdr, o.lo, o.hi) THEN "TombValueReadable" ELSE "CountIsSnapshot") ELSE {})
       [] OTHER -> {}
@@ -359,7 +365,8 @@ ReadChecks(o, e) ==
 \* the etcd endpoint additionally returns a count: the number of keys in the range at the read
 \* revision regardless of the limit (a point read: the number of kvs returned)
 EtcdCountChecks(o, e) ==
-    IF e.api # "etcd" \/ e.err # "" \/ e.ecount < 0 THEN {}
+    IF "api" \notin DOMAIN e THEN {}
+    ELSE IF e.api # "etcd" \/ e.err # "" \/ e.ecount < 0 THEN {}
     ELSE LET R == IF o.rev = 0 THEN e.hdr ELSE o.rev IN
          CASE o.op = "get" -> V(e.ecount = Len(e.kvs), "EtcdPointCount")
            [] o.op = "list" /\ R >= floor /\ (o.rev = 0 \/ o.rev <= o.cm0) /\ ~TouchesStar(R, o.lo, o.hi) ->
@@ -375,44 +382,47 @@ TRReturn ==
        /\ rds' = IF o.op = "list" /\ E.err = "" /\ o.limit = 0 /\ o.pfx >= 0
                  THEN rds \cup {[prefix |-> o.pfx, hdr |-> IF o.rev = 0 THEN E.hdr ELSE o.rev, kvs |-> E.kvs, full |-> TRUE]}
                  ELSE rds
-    /\ UNCHANGED <<idx, ver, hv, floor, cm, base, maxRet, seen, maxRev, evlog, ws, prefixes, cmax, expiring>>
+    /\ UNCHANGED <<idx, ver, hv, floor, cm, base, maxRet, seen, maxRev, evlog, ws, prefixes, cmax, expiring, chg, ttl>>
 
 \* compaction request / response
 TCInvoke ==
     /\ Is("CInvoke") /\ Adv
-    /\ UNCHANGED <<idx, ver, hv, floor, cm, base, pend, maxRet, seen, maxRev, evlog, ws, rds, prefixes, cmax, expiring, viol>>
+    /\ UNCHANGED <<idx, ver, hv, floor, cm, base, pend, maxRet, seen, maxRev, evlog, ws, rds, prefixes, cmax, expiring, chg, ttl, viol>>
 TCReturn ==
     /\ Is("CReturn") /\ Adv
     /\ cmax' = IF E.err = "" /\ E.hdr > cmax THEN E.hdr ELSE cmax
     /\ viol' = viol \cup (IF E.err = "" THEN V(floor >= E.hdr \/ floor >= cmax, "FloorAccepted") ELSE {})
                     \cup (IF E.err = "" THEN V(E.hdr <= maxRev, "CompactClampCommitted") ELSE {})   \* (cm may lag behind in the log; maxRev bounds it)
                     \cup (IF E.err = "" /\ E.minunc > 0 THEN V(E.hdr < E.minunc, "CompactClamp") ELSE {})
-    /\ UNCHANGED <<idx, ver, hv, floor, cm, base, pend, maxRet, seen, maxRev, evlog, ws, rds, prefixes, expiring>>
+                    \cup V(\A k \in expiring : Writable(idx[k], ver[k]), "ExpireWholly")
+    /\ UNCHANGED <<idx, ver, hv, floor, cm, base, pend, maxRet, seen, maxRev, evlog, ws, rds, prefixes, expiring, chg, ttl>>
 
 \* a compaction delete: Del / DelCur with observed post value
-DelChecks(k, r, applied) ==
-    IF ~applied THEN {}
-    ELSE IF r = 0
-    THEN V(idx[k] = NoIdx \/ idx[k].del \/ k \in expiring, "CompactionDeletesLiveIndex")
-    ELSE LET R0 == floor IN
-         \* removing version r must not change any read at or above the accepted floor
-         V(k \in expiring \/ (\E x \in ver[k] : x.val = STAR) \/
-           \A R2 \in {x.rev : x \in hv[k]} \cup {R0, maxRev} :
-               R2 >= R0 => NewestLE({x \in ver[k] : x.rev # r}, R2).rev = NewestLE(ver[k], R2).rev
-                           \/ (~IsLive(NewestLE(ver[k], R2)) /\ ~IsLive(NewestLE({x \in ver[k] : x.rev # r}, R2))),
-           "CompactionPreservesReads")
+\* a compaction delete is SAFE if no read at or above the accepted floor changes; an unsafe delete is
+\* an EXPIRY: allowed only for Event keys whose newest change is older than the TTL (C17)
+DelSafe(k, r) ==
+    IF r = 0 THEN idx[k] = NoIdx \/ idx[k].del
+    ELSE \A R2 \in {x.rev : x \in hv[k]} \cup {floor, maxRev} :
+            R2 >= floor => NewestLE({x \in ver[k] : x.rev # r}, R2).rev = NewestLE(ver[k], R2).rev
+                           \/ (~IsLive(NewestLE(ver[k], R2)) /\ ~IsLive(NewestLE({x \in ver[k] : x.rev # r}, R2)))
+DelChecks(k, r, applied, t) ==
+    IF ~applied \/ DelSafe(k, r) \/ (\E x \in ver[k] : x.val = STAR) THEN {}
+    ELSE IF k \in expiring /\ ttl > 0 THEN V(t - chg[k] >= ttl, "NotBeforeTTL")
+    ELSE IF r = 0 THEN V(FALSE, "CompactionDeletesLiveIndex") ELSE V(FALSE, "CompactionPreservesReads")
 TDel ==
     /\ (Is("Del") \/ Is("DelCur")) /\ Adv
     /\ LET k == E.k  r == E.r  obj == E.kk = "obj" /\ k \in KS
            applied == E.res = "ok" /\ E.post[1] = "n" IN
-       /\ viol' = viol \cup (IF obj THEN DelChecks(k, r, applied) ELSE {})
+       /\ viol' = viol \cup (IF obj THEN DelChecks(k, r, applied, E.t) ELSE {})
                        \cup (IF obj /\ applied /\ r > 0 /\ (\E x \in ver[k] : x.rev = r /\ x.val = STAR)
                              THEN V(FALSE, "TombValueReadable") ELSE {})
        /\ IF obj /\ E.res = "ok"
           THEN LET nw == SetRec(idx[k], ver[k], r, E.post) IN
                /\ idx' = [idx EXCEPT ![k] = nw[1]] /\ ver' = [ver EXCEPT ![k] = nw[2]]
-          ELSE UNCHANGED <<idx, ver>>
-    /\ UNCHANGED <<hv, floor, cm, base, pend, maxRet, seen, maxRev, evlog, ws, rds, prefixes, cmax, expiring>>
+               \* an expired Event record is gone from the reference history as well
+               /\ hv' = IF k \in expiring /\ r > 0 THEN [hv EXCEPT ![k] = {x \in @ : x.rev # r}] ELSE hv
+          ELSE UNCHANGED <<idx, ver, hv>>
+    /\ UNCHANGED <<floor, cm, base, pend, maxRet, seen, maxRev, evlog, ws, rds, prefixes, cmax, expiring, chg, ttl>>
 
 \* ---- quiescence: everything returned, sequencer and repair loop idle
 TQuiesce ==
@@ -431,18 +441,25 @@ TQuiesce ==
                             THEN V(ApplyEvents(SnapAt(hv, KS, base), w.dl) = SnapAt(hv, KS, maxRev), "Converged")
                             ELSE {} : w \in open }
                ELSE {})
-    /\ UNCHANGED <<idx, ver, hv, floor, cm, base, pend, maxRet, seen, maxRev, evlog, ws, rds, prefixes, cmax, expiring>>
+    /\ UNCHANGED <<idx, ver, hv, floor, cm, base, pend, maxRet, seen, maxRev, evlog, ws, rds, prefixes, cmax, expiring, chg, ttl>>
+
+\* a scripted expectation of an expiry scenario on an engine with native TTL (the engine removes the
+\* records itself, no delete is logged): [what, ok]
+TExpect ==
+    /\ Is("Expect") /\ Adv
+    /\ viol' = viol \cup V(E.ok, "ExpiryExpectation")
+    /\ UNCHANGED <<idx, ver, hv, floor, cm, base, pend, maxRet, seen, maxRev, evlog, ws, rds, prefixes, cmax, expiring, chg, ttl>>
 
 \* events that carry no obligation for the monitors of this module
 Skippable == {"Deal", "CacheAdd", "Flush", "HubSlow", "HubDelete", "Subscribed", "CacheRead", "WatchClosing",
               "RetryDeal", "Get", "IterOpen", "IterItem", "Die", "Note"}
 TSkip ==
     /\ l <= Len(Trace) /\ E.e \in Skippable /\ Adv
-    /\ UNCHANGED <<idx, ver, hv, floor, cm, base, pend, maxRet, seen, maxRev, evlog, ws, rds, prefixes, cmax, expiring, viol>>
+    /\ UNCHANGED <<idx, ver, hv, floor, cm, base, pend, maxRet, seen, maxRev, evlog, ws, rds, prefixes, cmax, expiring, chg, ttl, viol>>
 
 TNext == TReset \/ TInitEv \/ TInvoke \/ TCommit \/ TNotify \/ TCommitted \/ TReturn
          \/ TWatchInvoke \/ TWatchReturn \/ TRecv \/ TClosed \/ TQuiesce \/ TSkip
-         \/ TRInvoke \/ TRReturn \/ TCInvoke \/ TCReturn \/ TDel
+         \/ TRInvoke \/ TRReturn \/ TCInvoke \/ TCReturn \/ TDel \/ TExpect
 
 TSpec == TInit /\ [][TNext]_vars
 
@@ -463,7 +480,10 @@ M_SuccessMeansWritten   == NoViol("SuccessMeansWritten")
 M_DeleteReturnsPrev     == NoViol("DeleteReturnsPrev")
 \* (keys that ever held a client value equal to the deletion marker are judged by TombValueReadable)
 M_IndexAgrees           == \A k \in KS : IndexAgreesK(idx[k], ver[k]) \/ (\E x \in hv[k] : x.val = STAR)
-M_Writable              == \A k \in KS : Writable(idx[k], ver[k]) \/ (\E x \in hv[k] : x.val = STAR)
+M_Writable              == \A k \in KS \ expiring : Writable(idx[k], ver[k]) \/ (\E x \in hv[k] : x.val = STAR)
+M_NotBeforeTTL          == NoViol("NotBeforeTTL")
+M_ExpireWholly          == NoViol("ExpireWholly")
+M_ExpiryExpectation     == NoViol("ExpiryExpectation")
 M_UniqueRevision        == NoViol("UniqueRevision")
 M_RealTimeOrder         == NoViol("RealTimeOrder")
 M_HeaderCoversData      == NoViol("HeaderCoversData")
